@@ -51,6 +51,7 @@ the stable sort: 3 = everything after file_id / developer_data_id / field_descri
 unrelated messages; `slots.length + 1` = nothing. -/
 structure FileType where
   name : String
+  gotype : String
   ftype : Nat
   slots : List Slot
   sortFrom : Nat
